@@ -819,3 +819,64 @@ pub fn supervise(id: &'static str) {
     );
     std::process::exit(1);
 }
+
+// ------------------------------------------------------------------------------------------------
+// Logging as an environment dimension. hickory logs through `tracing`; without a subscriber the
+// arguments of `warn!`/`debug!`/... are never evaluated, with one (every production binary has
+// one) they are: an out-of-range slice or an `unwrap` inside a log argument or a `Display` impl
+// then runs on untrusted input. `install_log_evaluation` installs a process-wide subscriber that
+// is enabled for every level and FORMATS every field of every event and span into a scratch
+// buffer (discarded), so that log arguments are evaluated exactly as under a real subscriber.
+
+struct EvalVisitor<'a>(&'a mut String);
+
+impl tracing_core::field::Visit for EvalVisitor<'_> {
+    fn record_debug(&mut self, _field: &tracing_core::Field, value: &dyn std::fmt::Debug) {
+        use std::fmt::Write;
+        self.0.clear();
+        let _ = write!(self.0, "{value:?}");
+    }
+}
+
+struct EvalSubscriber;
+
+thread_local! {
+    static LOG_SCRATCH: std::cell::RefCell<String> = const { std::cell::RefCell::new(String::new()) };
+}
+
+impl tracing_core::Subscriber for EvalSubscriber {
+    fn enabled(&self, _m: &tracing_core::Metadata<'_>) -> bool {
+        true
+    }
+    fn new_span(&self, attrs: &tracing_core::span::Attributes<'_>) -> tracing_core::span::Id {
+        LOG_SCRATCH.with(|b| {
+            if let Ok(mut b) = b.try_borrow_mut() {
+                attrs.record(&mut EvalVisitor(&mut b));
+            }
+        });
+        tracing_core::span::Id::from_u64(1)
+    }
+    fn record(&self, _span: &tracing_core::span::Id, values: &tracing_core::span::Record<'_>) {
+        LOG_SCRATCH.with(|b| {
+            if let Ok(mut b) = b.try_borrow_mut() {
+                values.record(&mut EvalVisitor(&mut b));
+            }
+        });
+    }
+    fn record_follows_from(&self, _span: &tracing_core::span::Id, _follows: &tracing_core::span::Id) {}
+    fn event(&self, event: &tracing_core::Event<'_>) {
+        LOG_SCRATCH.with(|b| {
+            if let Ok(mut b) = b.try_borrow_mut() {
+                event.record(&mut EvalVisitor(&mut b));
+            }
+        });
+    }
+    fn enter(&self, _span: &tracing_core::span::Id) {}
+    fn exit(&self, _span: &tracing_core::span::Id) {}
+}
+
+/// Install the log-evaluating subscriber for the whole process (idempotent; a no-op when another
+/// global subscriber is already set).
+pub fn install_log_evaluation() {
+    let _ = tracing_core::dispatcher::set_global_default(tracing_core::Dispatch::new(EvalSubscriber));
+}
